@@ -531,7 +531,7 @@ def process(template_path, out=None, unit=None, depth=0):
                 out.emit(ci)
             i += 1
             continue
-        if d in ('fn', 'arm', 'closure'):
+        if d in ('fn', 'arm', 'closure', 'expr'):
             i = process_fn(tl, i, d, arg, out, unit)
             continue
         raise AnchorLoss('%s:%d unknown directive %s' % (template_path, i + 1, d))
@@ -601,6 +601,26 @@ def process_fn(tl, i, d, arg, out, unit):
             log.append('T9 `_` parameters named')
             sig2 = sig3
         sig2 = re.sub(r'^\s+', '', sig2)
+    elif d == 'expr':
+        # T15: one braced sub-expression of the selected function (a struct literal), starting right after the anchor,
+        # wrapped as the body of a function whose signature comes from the template (free names become parameters)
+        pat = next((a for k, a, ls in sections if k == 'expr-pattern'), None)
+        if pat is None or wrapper_sig is None:
+            raise AnchorLoss('%s: expr needs //@ expr-pattern and //@ wrap' % sel)
+        fb = src[it.body_open:it.end]
+        ms = list(re.finditer(pat, fb))
+        if len(ms) != 1:
+            raise AnchorLoss('%s: expr anchor `%s` matches %d times in %s' % (rel, pat, len(ms), sel))
+        j = ms[0].end()
+        bo = fb.find('{', j)
+        if bo < 0:
+            raise AnchorLoss('%s: no `{` after expr anchor `%s`' % (rel, pat))
+        be = rs.match_close(fb, bo)
+        body = '{\n' + fb[j:be + 1].strip() + '\n}'
+        body_src_line = line_of(src, it.body_open + j)
+        sig2 = wrapper_sig.strip() + ' '
+        qual = qual + '#expr'
+        log.append('T15 sub-expression after `%s` wrapped as a function' % pat)
     elif d == 'closure':
         # T12: the block body of a closure `<anchor>|params| { .. }` inside the selected function, wrapped as a
         # function whose signature (captured variables become parameters) comes from the template
@@ -780,7 +800,7 @@ def process_fn(tl, i, d, arg, out, unit):
                 break
             if not placed:
                 out.lost_hints.append({'fn': qual, 'anchor': a})
-        elif k in ('spec', 'arm-pattern', 'closure-pattern', 'wrap', 'subst', 'name', 'desugar-ops', 'wrap-ok', 'desugar-destructure', 'desugar-letchain', 'subst-opt', 'closure-params'):
+        elif k in ('spec', 'arm-pattern', 'closure-pattern', 'wrap', 'subst', 'name', 'desugar-ops', 'wrap-ok', 'desugar-destructure', 'desugar-letchain', 'subst-opt', 'closure-params', 'expr-pattern'):
             pass
         else:
             raise AnchorLoss('unknown section %s in %s' % (k, qual))
